@@ -84,6 +84,7 @@ def gen_ops(ctx):
     # 6. the double-scale table of rgb8 -> cmyk8: all 255 rows of the real code against the table the theorems are about
     for k in range(255): ops.append("cmykrow %d" % k)
     # 7. exhaustive planes: all 2^24 rgb8 pixels (256 planes), rgba8 (r,a) planes for several (g,b)
+    ops += het_ops(ctx)
     planes = list(range(256))
     for rr in planes: ops.append("sweep8 %d" % rr)
     gb = [(0, 0), (255, 255), (128, 64), (1, 254)] + [(r.below(256), r.below(256)) for _ in range(28 if th else 4)]
@@ -155,11 +156,44 @@ def abstract_tie(ctx, ops, impl):
         vlib.kernel_tie(ctx, "C09Float-" + ("int" if typ == "ℤ" else "rat"), ["GilVerif.Props.C09Float"],
                         ["GilVerif", "GilVerif.Lemmas.C06Float", "GilVerif.Lemmas.C09Float"], typ, cl)
 
+def regen_c06(ctx):
+    """the heterogeneous-pixel part of the model converts each channel with C06's packed converters (Model/C06.lean over
+    Gen/C06.lean): regenerate that file from the tree under test too, so that the C09 model follows the current source"""
+    import cxx2lean, C06_syms, os
+    ok, errs, changed = cxx2lean.generate(C06_syms.NAMESPACE, C06_syms.SYMS, ctx.include, os.path.join(ctx.lean, "GilVerif/Gen/C06.lean"))
+    if not ok:
+        for name, err in errs: ctx.broken.append(("translator", "C06." + name, err))
+    elif changed: ctx.notes.append("generated file GilVerif/Gen/C06.lean changed on this run")
+
+HET = {"rgb565": (5, 6, 5), "bgr565": (5, 6, 5), "rgb332": (3, 3, 2), "ba332": (3, 3, 2), "ba565": (5, 6, 5)}
+
+def het_ops(ctx):
+    """heterogeneous rgb pixels (channels of different depths): every gray value into every such destination, packed sources to rgb8 / gray8"""
+    r, th, ops = ctx.rng, ctx.thorough(), []
+    for d in HET:
+        for v in range(256): ops.append("cch gray8 %s %d" % (d, v))
+        full16 = th or d in ("rgb565", "ba332")
+        for v in (range(65536) if full16 else list(range(0, 65536, 61)) + [65535, 32768, 255, 256, 257, 65534]): ops.append("cch gray16 %s %d" % (d, v))
+        for _ in range(4000 if th else 600): ops.append("cch rgb8 %s %d %d %d" % (d, r.below(256), r.below(256), r.below(256)))
+        for v in (0, 8, 128, 255): ops.append("cchA gray8 %s %d" % (d, v))          # the build with assertions
+    for s_, ws in HET.items():
+        n = [2 ** w for w in ws]
+        allpx = [(a, b, c) for a in range(n[0]) for b in range(n[1]) for c in range(n[2])]
+        if len(allpx) > 256 and not (th or s_ == "rgb565"):
+            allpx = [allpx[r.below(len(allpx))] for _ in range(3000)] + [(0, 0, 0), (n[0] - 1, n[1] - 1, n[2] - 1)]
+        for d in ("rgb8", "gray8"):
+            for p in allpx: ops.append("cch %s %s %d %d %d" % ((s_, d) + p))
+    return ops
+
 def run(ctx, ops=None):
     vlib.regen(ctx, C09_syms.NAMESPACE, C09_syms.SYMS)
+    regen_c06(ctx)
     obligations, discharged = vlib.standard_proof_steps(ctx, extra_props=["GilVerif.Props.C09Float"])
     bins = parcorr.compile_parallel(ctx, [dict(src_rel="harness/C09/main.cpp", name="C09_g%d" % g,
-                                               defines=["C09_GROUP=%d" % g, "C09_NGROUPS=%d" % NGROUPS]) for g in range(NGROUPS)])
+                                               defines=["C09_GROUP=%d" % g, "C09_NGROUPS=%d" % NGROUPS]) for g in range(NGROUPS)]
+                                         + [dict(src_rel="harness/C09/hetero.cpp", name="C09_het_ndebug", defines=["NDEBUG"]),
+                                            dict(src_rel="harness/C09/hetero.cpp", name="C09_het_assert")])
+    het_ndebug, het_assert = bins[NGROUPS], bins[NGROUPS + 1]
     samples, distinct, pixels = [], 0, 0
     bad = [e for b, e in bins if b is None]
     if bad:
@@ -168,8 +202,10 @@ def run(ctx, ops=None):
         ops = ops or gen_ops(ctx)
         def jobs_for(ops):
             by_group = {}
-            for o in ops: by_group.setdefault(group_of(o), []).append(o)
-            jobs = []
+            for o in ops:
+                if not o.startswith("cch"): by_group.setdefault(group_of(o), []).append(o)
+            jobs = parcorr.chunks(het_ndebug[0], [o for o in ops if o.startswith("cch ")], 8000) \
+                 + parcorr.chunks(het_assert[0], [o for o in ops if o.startswith("cchA ")], 8000)
             for g in sorted(by_group):
                 heavy = [o for o in by_group[g] if o.startswith("sweep")]; light = [o for o in by_group[g] if not o.startswith("sweep")]
                 jobs += parcorr.chunks(bins[g][0], heavy, 4) + parcorr.chunks(bins[g][0], light, 4000)
@@ -187,7 +223,7 @@ def run(ctx, ops=None):
             ops += o2; impl += i2; model += m2
             if not ctx.failures:
                 ctx.broken.append(("correspondence", sweeps[0]["op"], "sweep verdict %s but no single pixel of the plane fails the Spec" % sweeps[0]["clause"]))
-        if discharged == obligations: abstract_tie(ctx, ops, impl)
+        if discharged == obligations and not ctx.failures: abstract_tie(ctx, ops, impl)
         distinct = len({o for o in ops if nontrivial(o)})
         pixels = sum(65536 if o.startswith("sweep") else (int(o.split()[7]) if o.startswith("lumax") else (256 - int(o.split()[1]) if o.startswith("cmykrow") else 1)) for o in ops)
         ctx.cov["pixels_judged"] = pixels
@@ -198,7 +234,7 @@ def run(ctx, ops=None):
     return vlib.finish(ctx, "proof", obligations, discharged,
         rule="op lines: cc (one pixel, every ordered pair of 24 pixel types that shares a depth or uses canonical layouts; special + random pixels; cmyk8 axes; all gray8 values), "
              "lumax (rgb->gray along one channel, all depth pairs), ccv (color_converted_view / copy_and_convert_pixels on small images), "
-             "sweep8 r (all 65536 rgb8 pixels of plane r: gray8, cmyk8 and back; all 256 planes = all 2^24 pixels), sweepA g b (all 65536 (r,a) of rgba8); "
+             "cch (heterogeneous rgb pixels rgb565 bgr565 rgb332 and bit-aligned ba332 ba565: every gray8 value and gray16 values into each, rgb8 into each, packed sources to rgb8 / gray8; cchA = same op on the build with assertions), sweep8 r (all 65536 rgb8 pixels of plane r: gray8, cmyk8 and back; all 256 planes = all 2^24 pixels), sweepA g b (all 65536 (r,a) of rgba8); "
              "non-trivial = source and destination pixel types differ, or a sweep/lumax op (distinct op lines counted)",
         samples=samples, distinct_nontrivial=distinct, assumptions=ASSUME, trusted_base=vlib.TRUSTED_BASE,
         extra={"pixels_judged": pixels, "type_pairs": ctx.cov.get("type_pairs", 0), "rgb8_planes_swept": n8,
